@@ -1,2 +1,101 @@
+"""C05, invariance part: optimising a tensor under a blocking is the same computation as optimising its blocks as separate
+parameters.  The blocks come from the SPEC (Blocking.Expected evaluated by TLC), so the run also cross-checks the real
+merge / split against the specification once more."""
+from __future__ import annotations
+
+import copy
+import random
+
+import torch
+
+from harness import family, realopt, tlc
+from harness.drivers import shampoo_props as sp
+
+ORACLE = r"""
+---- MODULE BlockingOracle2 ----
+EXTENDS Blocking, Json, IOUtils
+Cases == JsonDeserialize(IOEnv.CASES)
+ASSUME JsonSerialize(IOEnv.OUT, [i \in 1..Len(Cases) |->
+   [merged |-> MergedShape(Cases[i].shape, Cases[i].thr, Cases[i].merge), blocks |-> Blocks(Cases[i].shape, Cases[i].thr, Cases[i].merge)]])
+====
+"""
+SHAPES = [[4, 6], [5, 3], [2, 3, 4], [6], [3, 1, 4], [2, 2, 2, 3], [7, 2], [1, 5], [4, 4]]
+
+
+def invariance_task(args):
+    import logging
+    logging.disable(logging.WARNING)
+    torch.set_num_threads(1)
+    draw, specs, masks = args
+    try:
+        g = draw["groups"][0]
+        a_opt, a_params = realopt.build(draw)
+        # run B: the spec's blocks as separate contiguous parameters, no further merging / blocking
+        b_params, where = [], []
+        for pi, (p, sp_) in enumerate(zip(a_params[0], specs)):
+            merged = tuple(sp_["merged"])
+            for blk in sp_["blocks"]:
+                sl = tuple(slice(s, s + l) for s, l in blk)
+                b_params.append(torch.nn.Parameter(p.detach().view(merged)[sl].clone().contiguous()))
+                where.append((pi, merged, sl))
+        gb = copy.deepcopy(g)
+        gb["maxdim"], gb["merge"] = 1 << 20, False
+        db = dict(draw, groups=[gb])
+        b_opt, _ = realopt.build(db, params=[b_params])
+        mm = []
+        for t, m in enumerate(masks, start=1):
+            grads = [realopt.make_grad(draw, 0, pi, t, shp) if m[pi] else None for pi, shp in enumerate(g["shapes"])]
+            for p, gr in zip(a_params[0], grads):
+                p.grad = None if gr is None else gr.clone()
+            for bp, (pi, merged, sl) in zip(b_params, where):
+                bp.grad = None if grads[pi] is None else grads[pi].view(merged)[sl].clone().contiguous()
+            a_opt.step()
+            b_opt.step()
+            for bi, (bp, (pi, merged, sl)) in enumerate(zip(b_params, where)):
+                a_blk = a_params[0][pi].detach().view(merged)[sl]
+                err = float((a_blk - bp.detach()).abs().max()) if bp.numel() else 0.0
+                scale = max(float(bp.detach().abs().max()) if bp.numel() else 0.0, 1e-30)
+                if err > 1e-10 * scale:
+                    mm.append((t, f"blocking_invariance.p{pi}.b{bi}", f"equal to the block optimised alone (max|.|={scale:.4g})", f"abs err {err:.3e}"))
+            if mm:
+                break
+        return mm, None, None
+    except Exception:
+        import traceback
+        return [], None, traceback.format_exc()
+
+
 def run_blocking_invariance(ctx):
-    ctx.note("blocking invariance (R) not yet wired")
+    quick = ctx.tier == "quick"
+    rng = random.Random(ctx.seed * 7919 + 55)
+    tasks, cases = [], []
+    for _ in range(30 if quick else 400):
+        shapes = [rng.choice(SHAPES) for _ in range(rng.choice([1, 2]))]
+        thr = rng.choice([1, 2, 3, 4, 6, 1024])
+        merge = rng.random() < 0.5
+        family.TEMPLATES["_inv"] = dict(shapes=shapes, maxdim=thr, merge=merge, ignored=[])
+        g = family.draw_group(rng, "_inv")
+        if g["kind"] == "soap":
+            g["method"] = "eigh"
+        if isinstance(g["override"], list):
+            g["override"] = 0
+        d = family.make_draw(rng, [g])
+        masks, cur = [], [True] * len(shapes)
+        for _ in range(5):
+            if rng.random() < 0.3:
+                i = rng.randrange(len(cur))
+                cur[i] = not cur[i]
+            masks.append(list(cur))
+        tasks.append([d, None, masks])
+        cases += [{"shape": s, "thr": thr, "merge": merge} for s in shapes]
+    exp, _ = tlc.oracle("BlockingOracle2", ORACLE, cases, tag="C05-inv")
+    it = iter(exp)
+    for t in tasks:
+        t[1] = []
+        for _ in t[0]["groups"][0]["shapes"]:
+            e = next(it)
+            t[1].append({"merged": list(e["merged"] or []), "blocks": [[list(x) for x in blk] for blk in e["blocks"]]})
+    res = sp.pool_map(invariance_task, [tuple(t) for t in tasks])
+    sp.collect(ctx, [(t[0], [{"ev": "masks", "masks": t[2]}], None) for t in tasks], res, [None] * len(tasks),
+               lambda clause, p=None: "blocking_invariance" in clause, "blocking_invariance")
+    ctx.add("blocking_invariance_runs", len(tasks))
